@@ -2,3 +2,4 @@ import Fuota.Generated.Consts
 import Fuota.Model.Hex
 import Fuota.Model.Layout
 import Fuota.Props.C11
+import Fuota.Model.Recon
